@@ -61,6 +61,26 @@ pub fn begin_case(w: usize, buf: &[u8]) {
         }
     }
 }
+/// what the tracker of worker `w` has been fed (the last 256 accepted frames) and where its
+/// receiver is: a hang inside the tracker can only be reproduced with that context
+static RING: [Mutex<(std::collections::VecDeque<Vec<u8>>, (f64, f64), f64)>; WORKERS] = [const { Mutex::new((std::collections::VecDeque::new(), (52.0, 4.0), 500.0)) }; WORKERS];
+
+pub fn ctx_reset(w: usize, rx: (f64, f64), range: f64) {
+    if let Ok(mut r) = RING[w].lock() {
+        r.0.clear();
+        r.1 = rx;
+        r.2 = range;
+    }
+}
+pub fn ctx_push(w: usize, buf: &[u8]) {
+    if let Ok(mut r) = RING[w].lock() {
+        if r.0.len() >= 256 {
+            r.0.pop_front();
+        }
+        r.0.push_back(buf.to_vec());
+    }
+}
+
 pub fn end_worker(w: usize) {
     HEARTBEAT[w].store(0, Ordering::Relaxed);
 }
@@ -76,7 +96,9 @@ pub fn start_watchdog(limit_ms: u64) {
                 let dir = verif_dir().join("replays").join("C01");
                 let _ = std::fs::create_dir_all(&dir);
                 let p = dir.join("watchdog-input.json");
-                let _ = std::fs::write(&p, json!({"kind":"frame","check":"total","hex":cur,"note":"worker made no progress; hang suspected"}).to_string());
+                let f64j = |x: f64| if x.is_finite() { json!(x) } else { json!(format!("{x}")) };
+                let (hist, rx, range) = RING[w].lock().map(|r| (r.0.iter().map(|b| bits::hex(b)).collect::<Vec<_>>(), r.1, r.2)).unwrap_or((vec![], (52.0, 4.0), 500.0));
+                let _ = std::fs::write(&p, json!({"kind":"frame","check":"total","hex":cur,"history":hist,"rx_lat":f64j(rx.0),"rx_lon":f64j(rx.1),"range":f64j(range),"note":"worker made no progress; hang suspected"}).to_string());
                 println!("WATCHDOG: a case ran longer than {limit_ms} ms (input saved to {})", p.display());
                 // exit status 3: the dispatcher re-runs the saved input under a CPU-time limit to tell a
                 // genuine non-terminating decode from a stalled machine
@@ -228,8 +250,10 @@ pub fn replay_c01(v: &Value) -> Vec<Failure> {
     }
     let Some(buf) = bits::unhex(v.get("hex").and_then(|h| h.as_str()).unwrap_or("")) else { return vec![] };
     let mut out = vec![];
-    let rx = (v.get("rx_lat").and_then(|x| x.as_f64()).unwrap_or(52.0), v.get("rx_lon").and_then(|x| x.as_f64()).unwrap_or(4.0));
-    let range = v.get("range").and_then(|x| x.as_f64()).unwrap_or(500.0);
+    // non-finite values are saved as strings ("NaN", "inf", "-inf")
+    let num = |k: &str, d: f64| v.get(k).and_then(|x| x.as_f64().or_else(|| x.as_str().and_then(|s| s.parse::<f64>().ok()))).unwrap_or(d);
+    let rx = (num("rx_lat", 52.0), num("rx_lon", 4.0));
+    let range = num("range", 500.0);
     let mut t = TrackerCtx::new(rx, range);
     // optional history that must be fed first (tracker / pairing failures need it)
     if let Some(h) = v.get("history").and_then(|h| h.as_array()) {
@@ -305,12 +329,14 @@ pub fn run_c01(ctx: &Ctx) -> ! {
                 record(st, sigs, &b, t, &recent);
             }
             if accepted {
+                ctx_push(w, &b);
                 if recent.len() >= 6 {
                     recent.remove(0);
                 }
                 recent.push(b);
             }
         };
+        ctx_reset(w, rx, range);
         // (a) uniform random byte strings of length 0..=32
         for i in 0..nrandom / WORKERS as u64 {
             let len = (i % 33) as usize;
@@ -319,6 +345,7 @@ pub fn run_c01(ctx: &Ctx) -> ! {
             if i % 50_000 == 0 {
                 let (rx, range) = gen_rx(&mut rng);
                 t = TrackerCtx::new(rx, range);
+                ctx_reset(w, rx, range);
             }
         }
         // (b) structured frames, all length modes, addresses from a small pool half the time
@@ -336,6 +363,7 @@ pub fn run_c01(ctx: &Ctx) -> ! {
             if i % 20_000 == 0 {
                 let (rx, range) = gen_rx(&mut rng);
                 t = TrackerCtx::new(rx, range);
+                ctx_reset(w, rx, range);
             }
         }
         // (c) field-value sweeps: every value of every field <= 10 bits, edges of wider ones
@@ -410,6 +438,48 @@ pub fn run_c01(ctx: &Ctx) -> ! {
             st.class("long-lived aircraft (150 k frames)");
             if r.is_err() {
                 st.fail(Failure { sig: "C01/panic/tracker/long_lived".into(), msg: format!("feeding {n_long} frames of one aircraft to the tracker panicked at {}", last_panic()), replay: json!({"kind":"long_lived","n":n_long}) });
+            }
+        }
+        // (c2) payloads filled with one repeated pattern: all eight characters / all fields equal
+        // (every 6-bit code repeated from ME/MB bit 9, every byte value repeated), under every
+        // type code and BDS code that interprets the payload
+        {
+            let mut fills: Vec<[u8; 7]> = vec![];
+            for v in 0..64u64 {
+                let mut p = [0u8; 7];
+                for i in 0..8 {
+                    set(&mut p, 9 + 6 * i, 6, v);
+                }
+                fills.push(p);
+            }
+            for v in 0..=255u8 {
+                fills.push([v; 7]);
+            }
+            for (fi, fill) in fills.iter().enumerate() {
+                if fi % WORKERS != w {
+                    continue;
+                }
+                for df in [17u8, 18] {
+                    for tc in 0..32u8 {
+                        let mut me = *fill;
+                        set(&mut me, 1, 5, tc as u64);
+                        for sub in if tc == 19 || tc == 31 || tc == 28 { 0..8u64 } else { 0..1u64 } {
+                            if tc == 19 || tc == 31 || tc == 28 {
+                                set(&mut me, 6, 3, sub);
+                            }
+                            let b = squitter(df, (fi % 8) as u8, 0xabc000 + (fi as u32 % 6), &me);
+                            case(st, &mut t, b, "rejected pattern fill");
+                        }
+                    }
+                }
+                for df in [20u8, 21] {
+                    for code in [0x00u8, 0x10, 0x20, 0x30, fill[0]] {
+                        let mut b = gen_frame_df(&mut rng, df);
+                        b[4..11].copy_from_slice(fill);
+                        b[4] = code;
+                        case(st, &mut t, b, "rejected pattern fill");
+                    }
+                }
             }
         }
         // (d) all ordered pairs from a pool of decodable position reports
